@@ -31,6 +31,9 @@ pub struct PairWorld {
     pub infos: [AssetInfo; 2],
     pub decimals: [u8; 2],
     pub collector: Addr,
+    /// when set, ProvideLiquidity messages list the two assets in the opposite order to the pool's
+    /// own asset order (amounts always stay attached to their asset)
+    pub reversed_msgs: bool,
 }
 
 #[derive(Clone, Debug)]
@@ -80,6 +83,7 @@ impl PairWorld {
             infos: [info.asset_infos[0].clone(), info.asset_infos[1].clone()],
             decimals: info.asset_decimals,
             collector,
+            reversed_msgs: false,
         })
     }
 
@@ -174,10 +178,11 @@ impl PairWorld {
             }
         }
         funds.sort_by(|a, b| a.denom.cmp(&b.denom));
+        let (i0, i1) = if self.reversed_msgs { (1, 0) } else { (0, 1) };
         let msg = pair::ExecuteMsg::ProvideLiquidity {
             assets: [
-                asset(&self.infos[0], amounts[0]),
-                asset(&self.infos[1], amounts[1]),
+                asset(&self.infos[i0], amounts[i0]),
+                asset(&self.infos[i1], amounts[i1]),
             ],
             slippage_tolerance: slippage,
             receiver: receiver.map(|r| r.to_string()),
@@ -358,6 +363,8 @@ pub struct TrioWorld {
     pub infos: [AssetInfo; 3],
     pub decimals: [u8; 3],
     pub collector: Addr,
+    /// order in which ProvideLiquidity messages list the three assets (a permutation of 0,1,2)
+    pub msg_order: [usize; 3],
 }
 
 impl TrioWorld {
@@ -394,6 +401,7 @@ impl TrioWorld {
             ],
             decimals: info.asset_decimals,
             collector,
+            msg_order: [0, 1, 2],
         })
     }
 
@@ -479,11 +487,12 @@ impl TrioWorld {
             }
         }
         funds.sort_by(|a, b| a.denom.cmp(&b.denom));
+        let o = self.msg_order;
         let msg = trio::ExecuteMsg::ProvideLiquidity {
             assets: [
-                asset(&self.infos[0], amounts[0]),
-                asset(&self.infos[1], amounts[1]),
-                asset(&self.infos[2], amounts[2]),
+                asset(&self.infos[o[0]], amounts[o[0]]),
+                asset(&self.infos[o[1]], amounts[o[1]]),
+                asset(&self.infos[o[2]], amounts[o[2]]),
             ],
             slippage_tolerance: slippage,
             receiver: receiver.map(|r| r.to_string()),
